@@ -104,13 +104,13 @@ def classOf (n : Note) : NoteClass :=
 /-- `copy()` of the three classes; `tags'` is the iteration order of the new tag set.
 `Note.copy` re-passes every field to `Note.__init__` (which limits the denominator of the
 duration); `Silence.copy` = `Silence(duration, tempo, pedal, tags)` and `Continuation.copy` =
-`Continuation(duration, pedal, tags)` rebuild the note from the duration only. -/
+`Continuation(duration, tempo, pedal, tags)` (the tempo is kept since fix 4db7f2f) rebuild the note from the duration only. -/
 def noteCopyWith (tags' : List String) (cls : NoteClass) (n : Note) : Note :=
   let dur := limitDenominator n.dur LIMIT_DENOM
   match cls with
   | .note => { n with dur := dur, tags := tags' }
   | .silence => { kind := .r, val := 0, oct := 0, dur := dur, tags := tags', tempo := n.tempo, pedal := n.pedal }
-  | .continuation => { kind := .l, val := 0, oct := 0, dur := dur, tags := tags', pedal := n.pedal }
+  | .continuation => { kind := .l, val := 0, oct := 0, dur := dur, tags := tags', tempo := n.tempo, pedal := n.pedal }
 
 /-- `copy()` when the new set iterates like the old one (CPython copies the table of a set
 without deleted slots as is) -/
